@@ -1129,6 +1129,13 @@ class Ctx:
                      self.ev(n.step) if n.step else None)
 
     def ev_JoinedStr(self, n):
+        # optional hook ``on_fstring(cx, node)``: a contract whose domain gives f-strings a meaning (label calculus:
+        # generated index ids) evaluates the parts itself; contracts without the hook are unaffected
+        hook = getattr(self.contract, "on_fstring", None)
+        if hook is not None:
+            r = hook(self, n)
+            if r is not NotImplemented:
+                return r
         return self.Opaque("fstr")
 
     def ev_Lambda(self, n):
@@ -1168,6 +1175,13 @@ class Ctx:
 
     def ev_DictComp(self, n):
         # {k: v for target in <concrete iterable> [if ...]}: same restrictions as comprehension(); keys concrete
+        # optional hook ``on_dictcomp(cx, node)``: a contract may give a dict comprehension over a collection of
+        # symbolic size its own (abstract map) value; contracts without the hook are unaffected
+        hook = getattr(self.contract, "on_dictcomp", None)
+        if hook is not None:
+            r = hook(self, n)
+            if r is not NotImplemented:
+                return r
         if len(n.generators) != 1:
             raise Unsupported("nested comprehension")
         g = n.generators[0]
